@@ -109,7 +109,7 @@ pub fn read_menu() -> Vec<(String, Step)> {
         ("traceString".into(), rd("debug_getBlockTraceString", json!(["latest"]), false)),
         ("rawBlock".into(), rd("debug_getRawBlock", json!(["latest"]), false)),
         ("txpool".into(), rd("txpool_content", json!([]), false)),
-        ("receipt".into(), rd("brc20_getTxReceiptByInscriptionId", json!(["i1e0"]), false)),
+        ("receipt".into(), rd("brc20_getTxReceiptByInscriptionId", json!([crate::world::s_insc()]), false)),
         ("storage".into(), rd("eth_getStorageAt", json!([s, "0x0"]), false)),
         ("blockByHash".into(), rd("eth_getBlockByHash", json!([z, true]), false)),
     ]
